@@ -23,6 +23,9 @@ CHECKS = {
  "C08": dict(technique="runtime monitoring: reference model of response-definition selection observed through per-entry distinguishing schemas, header/content/as-response reference verdicts, and a body-readability invariant checked after every ValidateResponse call",
    text="All 63 subsets of {1XX,200,201,2XX,4XX,default} x 18 statuses x GET/HEAD x strict on/off x every index body; header shapes x required x valid/violating/unparsable/absent; content-type cases incl. types without decoder, broken and over-long bodies; readOnly/writeOnly/required object schemas under the as-response reference; after each call input.Body is re-read and compared byte-for-byte. Exhaustive over the stated finite space.",
    note="Trusts the reference precedence (exact, class, default) and internal/refeval in as-response mode; headers defined by content are only checked for crash-freedom and presence.", ref="4 C08"),
+ "C13": dict(technique="runtime monitoring: post-condition monitor on the forwarded request (independent re-read of body, query, headers, cookies), reference default-merge model, and metamorphic re-validation (idempotence) of every accepted request",
+   text="All presence subsets of six defaulted parameters x 24 bodies x option sets x body-reading auth callbacks (accepting, rejecting, first alternative rejecting) x GetBody present/absent: after ValidateRequest the body must be readable in full (original bytes, or JSON-equal to the reference default merge when defaults were set), ContentLength/GetBody consistent, untouched parameters unchanged, every defaulted parameter decodable to its default from the forwarded request, and a second validation must pass and change nothing. Exhaustive over the stated finite space.",
+   note="Reference merge follows matched oneOf/anyOf branches only; explicit nulls are excluded; byte identity is required under SkipSettingDefaults and after failed validations that did not set defaults. Uses the verif hook.", ref="4 C13"),
 }
 NOT_YET = {}
 def main():
